@@ -136,7 +136,7 @@ func peerIDDecodeObligations(c *an.Check) (dec, enc, ifb, epk, bd *ssa.Function,
 		l, ok := an.ConvOf(pu[1].Call.Args[1]).(*ssa.Call)
 		okE = ok && an.BuiltinName(l) == "len" && an.IsParam(l.Call.Args[0], 1)
 		cp := 0
-		for _, b := range enc.Blocks {
+		for _, b := range an.ScanBlocks(enc) {
 			for _, ins := range b.Instrs {
 				if cc, ok := ins.(*ssa.Call); ok && an.BuiltinName(cc) == "copy" && an.IsParam(cc.Call.Args[1], 1) {
 					cp++
@@ -298,7 +298,7 @@ func c10(c *an.Check) {
 		c.Undecided("OWNERSHIP", "crypto.KeyPairFromStdKey", nil, "unresolved anchor")
 	} else {
 		nK, badK := 0, ""
-		for _, b := range kp.Blocks {
+		for _, b := range an.ScanBlocks(kp) {
 			for _, ins := range b.Instrs {
 				stt, ok := ins.(*ssa.Store)
 				if !ok {
